@@ -51,7 +51,15 @@ func (g G) drawHost(label string, c *IDPCfg, i int, m *MsgSpec) {
 	case "host":
 		m.Host = h
 	case "forwarded":
-		switch g.intn(label+".fw", 3) {
+		switch g.intn(label+".fw", 5) {
+		case 3:
+			// two header lines; the first proxy knows no host
+			m.Host = "internal.lb"
+			m.Forwarded = "for=203.0.113.7\nfor=192.0.2.1;host=" + h + ";proto=https"
+		case 4:
+			// one line, two elements; the second element names an inner host that must not win
+			m.Host = "internal.lb"
+			m.Forwarded = "for=203.0.113.7;host=" + h + ", for=10.0.0.1;host=inner-proxy.cluster.internal"
 		case 0:
 			m.Host = h
 		case 1:
